@@ -43,18 +43,35 @@ WHAT = {
 
 
 def main():
-    files = sys.argv[1:]
+    args = sys.argv[1:]
+    # files after `--sites-only` (audits of the additional batteries) only contribute raise sites to entries that exist anyway
+    sites_only = set(args[args.index("--sites-only") + 1:]) if "--sites-only" in args else set()
+    files = [a for a in args if a != "--sites-only"]
     agg = {}
     pairs = {}
     for f in files:
         d = json.load(open(f))
         for e in d["findings"]:
+            if f in sites_only:
+                k2 = dict(e["key"])
+                st_ = k2.pop("site", None)
+                kid2 = e["property"] + json.dumps(k2, sort_keys=True)
+                if st_ and kid2 in agg:
+                    agg[kid2].setdefault("sites", set()).add(st_)
+                continue
+            site = None
             if "func" in e["key"]:          # audits recorded the function; findings are keyed by module (see run.py)
-                e["key"]["file"] = e["key"].pop("func").split(":")[0]
+                fn_ = e["key"].pop("func")
+                e["key"]["file"] = fn_.split(":")[0]
+                site = fn_.split(":", 1)[1] if ":" in fn_ else None
+            if "site" in e["key"]:          # newer audits: module in the key, raising function as `site`
+                site = e["key"].pop("site")
             kid = e["property"] + json.dumps(e["key"], sort_keys=True)
             a = agg.setdefault(kid, {"property": e["property"], "key": e["key"], "n": 0, "idx": [], "detail": e["detail"],
                                      "serial": d.get("mode", "serial") == "serial"})
             a["n"] += e["n"]
+            if site:
+                a.setdefault("sites", set()).add(site)
             a.setdefault("modes", set()).add(d.get("mode", "serial"))
             if d.get("mode") == "boundary":
                 a.setdefault("contexts", set()).update(c for c in e.get("classes", {}) if str(c).startswith("boundary:"))
@@ -87,15 +104,16 @@ def main():
         else:
             unexpected.append(a)
             continue
+        sites = sorted(a.get("sites", [])) if prop == "C06" else []
         ents = []
         if a.get("modes") == {"boundary"}:
             # seen only on boundary-battery cases: one entry per parameter that was at the edge
             for ctx in sorted(a.get("contexts", [])):
                 ents.append({"status": "known", "property": prop, "key": {**key, "context": ctx},
                              "what": what + f" [only with the configuration parameter '{ctx.split(':', 1)[1]}' at the edge of its accepted range]",
-                             "audit_count": a["n"], "seen_in": ["boundary"]})
+                             "audit_count": a["n"], "seen_in": ["boundary"], **({"sites": sites} if sites else {})})
         else:
-            ent = {"status": "known", "property": prop, "key": key, "what": what, "audit_count": a["n"]}
+            ent = {"status": "known", "property": prop, "key": key, "what": what, "audit_count": a["n"], **({"sites": sites} if sites else {})}
             if a.get("seen_in"):
                 ent["seen_in"] = sorted(a["seen_in"])
             if a["idx"]:
@@ -112,7 +130,7 @@ def main():
                "findings": findings}, open(os.path.join(V, "known_findings.json"), "w"), indent=1)
     json.dump({"note": "audited success counts [ok, total] of (optimizer|task kind) pairs over the serial universe; used by C06 for the "
                        "integer-coded class (a pair with rate >= 0.9 must not fail wholesale)",
-               "universe": files, "pairs": pairs}, open(os.path.join(V, "c06_baseline.json"), "w"), indent=1)
+               "universe": [f for f in files if f not in sites_only], "pairs": pairs}, open(os.path.join(V, "c06_baseline.json"), "w"), indent=1)
     print(f"{sum(f['status'] == 'known' for f in findings)} known, {sum(f['status'] == 'fixed' for f in findings)} fixed")
     for a in unexpected:
         print("UNEXPECTED (not turned into a known finding - decide by hand):", a["property"], a["key"], a["n"], a["idx"], a["detail"][:200])
